@@ -89,6 +89,35 @@ Example C04_nonvacuous :
 Proof. vm_compute. split; reflexivity. Qed.
 
 
+(* a partial walk (fewer qids than names) changes nothing: neither the fid set nor the open state nor the type of
+   any fid - in particular the fid an in-place partial walk leaves in place (defect repaired by a2423ff) *)
+Theorem C04_partial_walk_changes_nothing : forall cfg c fid nf names sc c' qs ev,
+  CInv cfg c -> seq_step cfg c (Twalk_ fid nf names) sc = (c', Rwalk_ qs, ev) ->
+  length qs <> length names ->
+  veq (abs (c_fids c')) (abs (c_fids c)) /\
+  veq (oabs (c_fids c')) (oabs (c_fids c)) /\
+  veq (tabs (c_fids c')) (tabs (c_fids c)).
+Proof. exact partial_walk_changes_no_attribute. Qed.
+Print Assumptions C04_partial_walk_changes_nothing.
+
+(* a failed operation (other than Tremove) changes nothing; Tremove removes its fid and touches no other *)
+Theorem C04_error_changes_nothing : forall cfg c t sc c' r ev,
+  CInv cfg c -> seq_step cfg c t sc = (c', r, ev) ->
+  is_rerror r = true -> (forall fid, t <> Tremove_ fid) ->
+  veq (abs (c_fids c')) (abs (c_fids c)) /\
+  veq (oabs (c_fids c')) (oabs (c_fids c)) /\
+  veq (tabs (c_fids c')) (tabs (c_fids c)).
+Proof. exact error_changes_no_attribute. Qed.
+Print Assumptions C04_error_changes_nothing.
+
+Theorem C04_remove_removes_key_only : forall cfg c fid sc c' r ev,
+  CInv cfg c -> seq_step cfg c (Tremove_ fid) sc = (c', r, ev) ->
+  veq (abs (c_fids c')) (vdel (abs (c_fids c)) fid) /\
+  veq (oabs (c_fids c')) (vdel (oabs (c_fids c)) fid) /\
+  veq (tabs (c_fids c')) (vdel (tabs (c_fids c)) fid).
+Proof. exact remove_removes_key_only. Qed.
+Print Assumptions C04_remove_removes_key_only.
+
 (* ---- a modelling assumption about the shape of the CURRENT source (Gen/Shape.v), re-checked on every run ---- *)
 (* every refusal of walk / open / create precedes the change of the fid table or of the fid; walkPost compares the fid numbers before it retains *)
 Theorem C04_source_handlers_check_before_they_change : ShapeLib.handlers_check_before_they_change = true.
